@@ -67,6 +67,7 @@ func c11Cases(tier string, seed int64) []core.Case {
 		ifaces := ifaces
 		cases = append(cases, core.Case{ID: "optional-interfaces/" + ifaces, Run: func(ctx *core.Ctx) core.Result { return c11Subset(ctx, ifaces) }})
 	}
+	cases = append(cases, core.Case{ID: "destroy-waits-for-operation", Run: c11DestroyWaitsForOperation})
 	for _, where := range []string{"fiddestroy", "connclosed"} {
 		where := where
 		cases = append(cases, core.Case{ID: "slow-teardown/" + where, Run: func(ctx *core.Ctx) core.Result { return c11SlowTeardown(ctx, where) }})
@@ -946,5 +947,116 @@ func c11Subset(ctx *core.Ctx, ifaces string) core.Result {
 		res.Sig(fmt.Sprintf("subset|%s|%d|%d|%v", ifaces, nf, len(gates), dotu))
 	}
 	res.Sample(map[string]interface{}{"scenario": "implementation providing only some optional interfaces", "provides": ifaces})
+	return res
+}
+
+// c11DestroyWaitsForOperation: an implementation with a lock of its own per fid, which its operations hold until they
+// have answered and which its FidDestroy takes (the bundled in-memory servers work like that): at the disconnect a
+// request is still executing on a fid, FidDestroy for that fid waits for it, the request is released, answers
+// (into the void) and returns — after which the teardown completes: one ConnClosed, every fid destroyed once.
+func c11DestroyWaitsForOperation(ctx *core.Ctx) core.Result {
+	var res core.Result
+	for round := 0; round < 6 && len(res.Violations) == 0; round++ {
+		dotu := round%2 == 0
+		s := NewSess(Config{Dotu: dotu, Msize: 8192, Maxpend: []int{0, 4}[round%2]})
+		v := s.Dial()
+		ver := "9P2000"
+		if dotu {
+			ver = "9P2000.u"
+		}
+		if r, err := v.Version(8192, ver, W); err != nil || r.Msg == nil || r.Msg.Type != wire.Rversion {
+			res.Inconclusive = "c11: setup failed"
+			return res
+		}
+		v.Rpc(&wire.Msg{Type: wire.Tattach, Tag: 1, Fid: 1, Afid: wire.NOFID, Uname: "root", Nuname: 0}, W)
+		seq0 := s.Log.Seq()
+		nf := 1 + round%3
+		for i := 0; i < nf; i++ {
+			v.Rpc(&wire.Msg{Type: wire.Twalk, Tag: uint16(10 + i), Fid: 1, Newfid: uint32(20 + i), Wname: []string{"d"}}, W)
+		}
+		v.Rpc(&wire.Msg{Type: wire.Tstat, Tag: 30, Fid: 20}, W)
+		var tok int64
+		for _, ev := range s.Log.Snapshot(seq0) {
+			if ev.Kind == "op" && ev.Op == "Stat" && ev.Conn == v.ID {
+				tok = ev.Fid
+			}
+		}
+		if tok == 0 {
+			res.Inconclusive = "c11: fid token not learned"
+			return res
+		}
+		held := &wire.Msg{Type: []uint8{wire.Tstat, wire.Twalk, wire.Tclunk}[round%3], Tag: 40, Fid: 20, Newfid: 20}
+		plan := script.NewPlan()
+		plan.Gate, plan.Entered = make(chan struct{}), make(chan struct{})
+		s.Ops.SetPlan(v.ID, held.Tag, plan)
+		_ = v.Send(held)
+		select {
+		case <-plan.Entered:
+		case <-time.After(W):
+			res.Inconclusive = "c11: held request never started"
+			return res
+		}
+		// FidDestroy of that fid waits until the operation on it has returned
+		opDone := make(chan struct{})
+		s.Ops.SetDestroyGate(tok, opDone)
+		seq1 := s.Log.Seq()
+		go func() {
+			waitFor(4*W, func() bool {
+				for _, ev := range s.Log.Snapshot(seq1) {
+					if ev.Kind == "exit" && ev.Conn == v.ID && ev.Tag == held.Tag {
+						return true
+					}
+				}
+				return false
+			})
+			close(opDone)
+		}()
+		v.Hangup()
+		inside := waitFor(W, func() bool {
+			for _, ev := range s.Log.Snapshot(seq1) {
+				if ev.Kind == "destroy" {
+					return true
+				}
+			}
+			return false
+		})
+		res.Evals++
+		det := map[string]interface{}{"dotu": dotu, "round": round, "held": wire.TypeName(held.Type), "fids": nf + 1}
+		if !inside {
+			// (a Tclunk's own release may already have reported the fid: nothing waits then)
+			close(plan.Gate)
+			s.Ctl.WaitPassed("close.exit", v.ID, sched.AnyTag, 1, W)
+			res.Count("destroy_not_waiting", 1)
+			continue
+		}
+		close(plan.Gate)
+		finished := s.Ctl.WaitPassed("close.exit", v.ID, sched.AnyTag, 1, W)
+		if !finished {
+			res.Violate("C11;close-never-finished;destroy-waits-for-operation", "a request was executing on a fid at the disconnect and the implementation's FidDestroy waited for it; after the request had been released the connection's close processing still did not finish", det)
+			return res
+		}
+		nclosed, ndestroy := 0, map[int64]int{}
+		for _, ev := range s.Log.Snapshot(seq0) {
+			if ev.Kind == "connclosed" && ev.Conn == v.ID {
+				nclosed++
+			}
+			if ev.Kind == "destroy" {
+				ndestroy[ev.Fid]++
+			}
+		}
+		if nclosed != 1 {
+			res.Violate("C11;connclosed-count;destroy-waits-for-operation", fmt.Sprintf("ConnClosed reported %d times", nclosed), det)
+		}
+		for f, n := range ndestroy {
+			if n != 1 {
+				res.Violate("C11;destroy-count;destroy-waits-for-operation", fmt.Sprintf("fid object %d reported destroyed %d times", f, n), det)
+			}
+		}
+		if len(ndestroy) < nf+1 {
+			res.Violate("C11;destroy-count;destroy-waits-for-operation;missing", fmt.Sprintf("%d of %d fids reported destroyed", len(ndestroy), nf+1), det)
+		}
+		res.Count("teardowns_waiting_for_an_operation", 1)
+		res.Sig(fmt.Sprintf("destroy-waits-for-operation|%v|%s|%d", dotu, wire.TypeName(held.Type), nf))
+	}
 	return res
 }
